@@ -25,7 +25,7 @@ RULE = ("family B (80%): generated signatures over the five parameter kinds (0-2
         "plain function, instance method, classmethod, staticmethod (function decorated inside the class), as sync function or "
         "coroutine, generated as source text; x 8 calls that Python itself binds (each parameter by position / by name / by an "
         "accepted alias / omitted; extra positionals and keywords; values valid / convertible / invalid). family G (20%): sync and "
-        "async generator functions with yield / send / return annotations, eager or lazy, driven by a script of next/send values. "
+        "async generator functions with yield / send / return annotations, eager or lazy, driven by a script of next / send / throw steps (the body catches the thrown exception and yields once more). "
         "family E (15%): 2-4 positional-or-keyword parameters with Param(dependencies=...) and Options(max_params / min_params / "
         "collect_errors), as plain function, instance method or @staticmethod over @utype.parse with a bare first parameter: the same "
         "argument values are passed all by keyword and with the first j by position, and verdict, error type and the binding the body "
@@ -368,7 +368,7 @@ def make_case(i, rng, tier):
     if rng.random() < 0.2:
         return {"fam": "G", "is_async": rng.random() < 0.4, "eager": rng.random() < 0.5, "yield_t": rng.choice(["int", "str", None]),
                 "send_t": rng.choice(["int", None]), "ret_t": rng.choice(["int", None]), "n": rng.choice([0, 1, 2, 3]),
-                "script": [rng.choice([None, None, "5", 6, "x"]) for _ in range(4)], "arg": rng.choice([2, "3", "x"])}
+                "script": [rng.choice([None, None, "5", 6, "x"] + (["THROW"] if i % 3 == 0 else [])) for _ in range(4)], "arg": rng.choice([2, "3", "x"])}
     sig = gen_sig(rng)
     return {"fam": "B", "sig": sig, "calls": [gen_call(rng, sig) for _ in range(8)]}
 
@@ -529,6 +529,10 @@ def _features(sig, plan):
 
 
 # ---- generators -----------------------------------------------------------------------------------
+class ThrownIn(Exception):
+    """what the driver throws into a generator (not a ValueError: ParseError is one)"""
+
+
 def run_G(case, ctx):
     import utype
 
@@ -537,9 +541,10 @@ def run_G(case, ctx):
                                     "" if case["is_async"] else ", " + ANN.get(r, "typing.Any"))
     ret_line = "" if case["is_async"] else "    return '77'\n"
     src = (f"{'async ' if case['is_async'] else ''}def gen(n: int) -> {ann}:\n    _seen.append(('entered', n))\n    for i in range(n):\n"
-           f"        got = yield str(i * 10)\n        _seen.append(('sent', got))\n{ret_line}")
+           f"        try:\n            got = yield str(i * 10)\n        except ThrownIn:\n            _seen.append(('thrown', i))\n"
+           f"            got = yield str(i * 10 + 5)\n        _seen.append(('sent', got))\n{ret_line}")
     seen = []
-    ns = {"utype": utype, "typing": typing, "_seen": seen}
+    ns = {"utype": utype, "typing": typing, "_seen": seen, "ThrownIn": ThrownIn}
     try:
         exec(src, ns)
         raw = ns["gen"]
@@ -560,9 +565,11 @@ def run_G(case, ctx):
                 trace.append(("yield", item))
                 sv = script[i % len(script)]
                 i += 1
-                item = g.send(sv) if sv is not None else next(g)
+                item = g.throw(ThrownIn("thrown in")) if sv == "THROW" else g.send(sv) if sv is not None else next(g)
         except StopIteration as e:
             trace.append(("return", e.value))
+        except ThrownIn:
+            trace.append(("raised", "ThrownIn"))
         return trace
 
     async def drive_async(g):
@@ -574,9 +581,11 @@ def run_G(case, ctx):
                 trace.append(("yield", item))
                 sv = script[i % len(script)]
                 i += 1
-                item = await (g.asend(sv) if sv is not None else g.__anext__())
+                item = await (g.athrow(ThrownIn("thrown in")) if sv == "THROW" else g.asend(sv) if sv is not None else g.__anext__())
         except StopAsyncIteration:
             trace.append(("return", None))
+        except ThrownIn:
+            trace.append(("raised", "ThrownIn"))
         return trace
 
     def expected():
@@ -591,6 +600,15 @@ def run_G(case, ctx):
             trace.append(("yield", c[1]))
             sv = script[i % len(script)]
             i += 1
+            if sv == "THROW":
+                # the body catches the exception thrown in at its yield and yields once more
+                trace.append(("yield", convert(y, str(k * 10 + 5))[1]))
+                sv = script[i % len(script)]
+                i += 1
+                if sv == "THROW":
+                    # thrown in at the yield of the handler: the exception leaves the generator
+                    trace.append(("raised", "ThrownIn"))
+                    return (trace, sent_log)
             if sv is not None:
                 cs = convert(s, sv)
                 if cs[0] == "bad":
@@ -613,7 +631,7 @@ def run_G(case, ctx):
     ctx.count("calls")
     sent_seen = [v for k, v in seen if k == "sent"]
     sigk = ("G", case["is_async"], case["eager"], y, s, r, case["n"] if False else None, out.kind, type(exp).__name__)
-    wit = {"source": src, "eager": case["eager"], "argument": repr(arg), "script(None=next, else send)": script, "expected": short(exp, 300),
+    wit = {"source": src, "eager": case["eager"], "argument": repr(arg), "script(None=next, 'THROW'=throw ThrownIn, else send)": script, "expected": short(exp, 300),
            "observed": repr(out), "sent_values_seen_by_body": short(sent_seen, 120)}
     kind = ("async-" if case["is_async"] else "sync-") + "generator" + ("/eager" if case["eager"] else "/lazy")
     if exp == "ParseError":
